@@ -98,6 +98,7 @@ class Renderer:
         import geophires_x
         from geophires_x import OptionList
         self.spec = spec
+        self.sutra = snap.get('outputs', {}).get('__class__') == 'SUTRAOutputs'   # SUTRA runs use their own writer
         self.model = ModelProxy(snap, OptionList)
         ns = {k: getattr(OptionList, k) for k in dir(OptionList) if not k.startswith('_')}
         import pandas as pd
@@ -188,7 +189,7 @@ class Renderer:
 
     # ---- statements ----
     def run(self):
-        self.block(self.spec['body'])
+        self.block(self.spec['sutra']['body'] if self.sutra and 'sutra' in self.spec else self.spec['body'])
         # print_outputs_rich appends the add-on and S-DAC-GT sections to the same file
         if 'addons' in self.spec and self.model.economics.DoAddOnCalculations.value:
             self.block(self.spec['addons']['body'])
